@@ -348,6 +348,29 @@ func c10Cross(base map[string]any) []c10Case {
 			}
 		}
 	}
+	// the referenced DOCUMENT carries its own root-level $merge / $replace next to the data the
+	// pattern matches on: it must still be found (and counted when the pattern is ambiguous)
+	for _, rootDir := range []string{"$merge", "$replace"} {
+		tgt := map[string]any{"id": 1, rootDir: "src", "src": map[string]any{"v": 1}, "a": map[string]any{"k": 2}}
+		if rootDir == "$replace" {
+			// a root-level $replace swaps the whole document when evaluated, but the stored (matched) tree still has id and a
+			tgt = map[string]any{"id": 1, rootDir: "src", "src": map[string]any{"v": 1, "id": 1}, "a": map[string]any{"k": 2}}
+		}
+		other := map[string]any{"id": 2, "a": map[string]any{"k": 3}}
+		for fi, ref := range []any{
+			map[string]any{"$match": map[string]any{"id": 1}, "$path": "a"},
+			[]any{map[string]any{"id": 1}, "a"},
+		} {
+			host := map[string]any{"id": 9, "h": map[string]any{"$replace": ref}}
+			inl := map[string]any{"id": 9, "h": map[string]any{"k": 2}}
+			kind := fmt.Sprintf("cross target-doc-with-root-%s form%d", rootDir, fi)
+			out = append(out, c10Case{Kind: kind + " found", Docs: []any{tgt, other, host}, Inlined: []any{tgt, other, inl}})
+			out = append(out, c10Case{Kind: kind + " host-first", Docs: []any{host, other, tgt}, Inlined: []any{inl, other, tgt}})
+			dup := map[string]any{"id": 1, "a": map[string]any{"k": 7}}
+			out = append(out, c10Case{Kind: kind + " ambiguous", Docs: []any{tgt, dup, host}, MustErr: true})
+			out = append(out, c10Case{Kind: kind + " ambiguous-reversed", Docs: []any{dup, tgt, host}, MustErr: true})
+		}
+	}
 	// whole-document reference and a self-matching host
 	out = append(out, c10Case{Kind: "cross whole-document", Docs: []any{mk(1, base), map[string]any{"id": 9, "h": map[string]any{"$replace": map[string]any{"$match": map[string]any{"id": 1}}}}},
 		Inlined: []any{mk(1, base), map[string]any{"id": 9, "h": mk(1, base)}}})
